@@ -227,7 +227,11 @@ func (f *Frame) havocAll(st *PState) {
 	if ex.origins != nil {
 		pre = st.clone()
 	}
+	keepMC, hadMC := st.heap[mustCallHeap]
 	st.heap = map[string]string{}
+	if hadMC {
+		st.heap[mustCallHeap] = keepMC // ghost record of the hooks called so far: no callee can touch it
+	}
 	st.epoch = ex.newEpoch()
 	if ex.origins != nil {
 		mod := ex.curMod
